@@ -67,6 +67,7 @@ static void do_op(int t, const char* op) {
 int main(int argc, char** argv) {
   if (argc < 3) return 2;
   vh_parse(argv[2]);
+  VH_DIRTY(fifo);
   if (!dist_fifo_init(&fifo)) return 2;
   nodes[++nn] = fifo.tail;
   vr_obj(fifo.tail, sizeof *fifo.tail, "n1");
